@@ -33,6 +33,7 @@ def replay_file(path):
     r = json.load(open(path))
     spec = checks_def.PROPS[r['property']]
     sc = harness.Scratch(cfg_test=spec.get('cfg_test', False))
+    sc.finish_replay(harness.Program(sc, True))
     out = []
     for prof_on in ([True, False] if r.get('profile') is None else [r['profile'].endswith('on')]):
         line = replay_native(sc, r['fn'], r['args'], prof_on)
@@ -63,13 +64,18 @@ def run_property(pid, tier, seed, only=None):
     def guard(fn, *a):
         try: fn(*a)
         except Exception as e: errs.append(e)
-    ths = [threading.Thread(target=guard, args=(sc.mir, True)), threading.Thread(target=guard, args=(sc.mir, False)),
-           threading.Thread(target=guard, args=(sc.replay_bin, False)), threading.Thread(target=guard, args=(sc.replay_bin, True))]
+    ths = [threading.Thread(target=guard, args=(sc.mir, True)), threading.Thread(target=guard, args=(sc.mir, False))]
     for t in ths: t.start()
     for t in ths: t.join()
     if errs:
         print('INCONCLUSIVE property=%s reason=build: %s' % (pid, str(errs[0])[:2000])); return 2
     _PROGS['on'] = harness.Program(sc, True); _PROGS['off'] = harness.Program(sc, False)
+    sc.finish_replay(_PROGS['on'])
+    ths = [threading.Thread(target=guard, args=(sc.replay_bin, False)), threading.Thread(target=guard, args=(sc.replay_bin, True))]
+    for t in ths: t.start()
+    for t in ths: t.join()
+    if errs:
+        print('INCONCLUSIVE property=%s reason=build: %s' % (pid, str(errs[0])[:2000])); return 2
     obs = spec['obligations'](tier)
     if only: obs = [o for o in obs if any(x in o.fn for x in only)]
     base_timeout = spec.get('timeout', {}).get(tier, 150 if quick else 1800)
@@ -125,9 +131,13 @@ def run_property(pid, tier, seed, only=None):
     models = sorted(set(f for r in recs for f in r.get('std_models', [])))
     val_pts = sum(r.get('validation', {}).get('points', 0) for r in recs); val_agree = sum(r.get('validation', {}).get('agree', 0) for r in recs)
     samples = []
-    for r in recs[:40]:
+    shown = [r for r in recs if r['verdict'] != 'holds'][:15] + sorted(recs, key=lambda r: -(r.get('wall_s') or 0))[:10] + recs[:25]
+    seen_ids = set(); ordered = []
+    for r in shown:
+        if id(r) not in seen_ids: seen_ids.add(id(r)); ordered.append(r)
+    for r in ordered:
         samples.append({k: r.get(k) for k in ('fn', 'kind', 'profile', 'slice', 'verdict', 'reason', 'abstractions', 'vacuity_witness', 'symex_s', 'solver_s',
-                                              'panic_sites', 'side_constraints', 'unwound_states', 'queries', 'model', 'native_replay', 'validation', 'sites') if r.get(k) is not None})
+                                              'panic_sites', 'side_constraints', 'unwound_states', 'queries', 'wall_s', 'model', 'native_replay', 'validation', 'sites') if r.get(k) is not None})
     ev = {
         'property_id': pid, 'tier': 'quick' if quick else 'thorough', 'seed': seed, 'level': 'model_checking',
         'coverage': {
@@ -168,5 +178,7 @@ def run_property(pid, tier, seed, only=None):
             print('VIOLATION property=%s replay=%s' % (pid, path))
         rc = 1
     elif inconclusive: rc = 2
+    slow = sorted(recs, key=lambda r: -(r.get('wall_s') or 0))[:6]
+    log('[%s] slowest: %s' % (pid, '; '.join('%s %s %s %.0fs (val %s)' % (r['fn'], r['profile'][-3:].strip('='), r.get('slice') or '', r.get('wall_s') or 0, (r.get('validation') or {}).get('points')) for r in slow)))
     print('[%s] tier=%s obligations=%d held=%d violations=%d inconclusive=%d queries=%d wall=%.1fs' % (pid, tier, len(recs), held, len(violations), len(inconclusive), nqueries, time.time() - t0))
     return rc
